@@ -14,6 +14,7 @@ Header keys (all on `//@` lines directly above the `#[kani::proof…] fn name()`
   checks: full | functional | noov    -- full = all Kani default checks (default); functional = memory-safety checks off; noov = also overflow checks off
   timeout: seconds                   -- per-harness timeout (default 600)
   note: free text
+  anchor: yes                        -- harness exists for a structural reason only; never run, never counted
 """
 import os
 import re
@@ -84,6 +85,11 @@ def parse_contract_text(text, crate, src_file, contract_file, generated=False):
         m = FN.match(line)
         if m and pending_attr:
             pending_attr = False
+            if "anchor" in cur:
+                # structural anchor only (e.g. the proof_for_contract Kani insists on before it
+                # accepts stub_verified); never selected, never counted
+                cur = {}
+                continue
             if "obligation" not in cur and "canary" not in cur:
                 raise SystemExit(
                     "registry: harness %s in %s has no //@ obligation header"
